@@ -274,6 +274,32 @@ def gen_mesh(rng, kinds=None, second_order=False, **kw):
     return gen_first_order(rng, kind, **kw)
 
 
+def derive(rng, m, kind):
+    """apply one or two library operations that return new meshes (uniform / adaptive refinement, restriction):
+    meshes as users actually obtain them; returns (mesh, list of op names)"""
+    ops = []
+    for _ in range(rng.randint(1, 2)):
+        if m.nelements > 40:
+            break
+        r = rng.random()
+        try:
+            if r < 0.45 and kind in ("line", "tri", "tet"):
+                k = rng.randint(1, max(1, min(m.nelements, 4)))
+                marked = np.array(sorted(rng.sample(range(m.nelements), k)), dtype=np.int32)
+                m = m.refined(marked)
+                ops.append("adaptive")
+            elif r < 0.7 and kind != "wedge" and m.nelements <= 12:
+                m = m.refined(1)
+                ops.append("uniform")
+            elif m.nelements >= 3:
+                keep = np.array(sorted(rng.sample(range(m.nelements), rng.randint(2, m.nelements))), dtype=np.int32)
+                m = m.restrict(keep)
+                ops.append("restrict")
+        except Exception:
+            break
+    return m, ops
+
+
 def mesh_descr(m):
     return {"cls": type(m).__name__, "p": m.p.tolist(), "t": m.t.tolist()}
 
